@@ -92,6 +92,35 @@ func shortTextsFor(kind string) []string {
 	return base
 }
 
+// goodTextsFor: texts the kind accepts (three different values where the kind has them)
+func goodTextsFor(kind string) []string {
+	switch kind {
+	case "bool":
+		return []string{"true", "false", "true"}
+	case "int32", "sint32", "sfixed32":
+		return []string{"1", "-2147483648", `"7"`}
+	case "int64", "sint64", "sfixed64":
+		return []string{"1", `"-9223372036854775808"`, "9223372036854775807"}
+	case "uint32", "fixed32":
+		return []string{"1", "4294967295", `"7"`}
+	case "uint64", "fixed64":
+		return []string{"1", `"18446744073709551615"`, "7"}
+	case "float":
+		return []string{"1.5", `"NaN"`, "-0.1"}
+	case "double":
+		return []string{"1.5", `"-Infinity"`, "0.1"}
+	case "string":
+		return []string{`"x"`, `""`, `"a\u0001😀"`}
+	case "bytes":
+		return []string{`"YQ=="`, `""`, `"YWJj"`}
+	case "enum":
+		return []string{`"E_ONE"`, "2", `"E_NEG"`}
+	case "nullvalue":
+		return []string{"null", `"NULL_VALUE"`, "0"}
+	}
+	return []string{"1", "2", "3"}
+}
+
 var msgTexts = map[string][]string{
 	"BoolValue":   {"true", "null", `"true"`, "1"},
 	"Int32Value":  {"5", `"5"`, "null", "1.5", "2147483648", "1e2", "true"},
@@ -231,6 +260,94 @@ func (Area) Gen(r *rand.Rand, tier string, emit func(string)) {
 		text("sdec", "d", "sing", kind, "", "   \n")
 	}
 
+	// 4b. sequences of bodies on ONE stream decoder / encoder (state must not leak from one body to the next):
+	// maps whose later bodies lack keys of earlier ones, empty and null bodies, errors in the middle, unknown enum names
+	seq := func(op, opts, card, kind, key string, sep byte, bodies ...string) {
+		hs := make([]string, len(bodies))
+		for i, b := range bodies {
+			hs[i] = hex.EncodeToString([]byte(b))
+		}
+		line(op, opts, card, kind, key, string(sep)+":"+strings.Join(hs, ","))
+	}
+	seqKeys := func(kk string) [3]string {
+		switch kk {
+		case "bool":
+			return [3]string{"true", "false", "true"}
+		case "string":
+			return [3]string{"a", "b", "c\\u0001"}
+		}
+		return [3]string{"1", "2", "3"}
+	}
+	for _, kind := range scalarKinds {
+		short := shortTextsFor(kind)
+		good := goodTextsFor(kind)
+		g0, g1, g2 := good[0], good[1%len(good)], good[2%len(good)]
+		bad := short[5] // "abc": wrong for every kind but string
+		if kind == "string" {
+			bad = "1"
+		}
+		for _, op := range []string{"seqd", "seqt"} {
+			for _, kk := range keyKinds {
+				k := seqKeys(kk)
+				obj := func(pairs ...string) string {
+					var sb strings.Builder
+					sb.WriteByte('{')
+					for i := 0; i+1 < len(pairs); i += 2 {
+						if i > 0 {
+							sb.WriteByte(',')
+						}
+						sb.WriteString(quoted(pairs[i]) + ":" + pairs[i+1])
+					}
+					sb.WriteByte('}')
+					return sb.String()
+				}
+				seq(op, "d", "map", kind, kk, 'n', obj(k[0], g0), obj(k[1], g1))
+				seq(op, "s", "map", kind, kk, 'c', obj(k[0], g0, k[1], g1), "{}", obj(k[1], g2))
+				seq(op, "d", "map", kind, kk, 's', obj(k[0], g0), obj(k[0], g1), obj(k[1], g2), "{}")
+				seq(op, "d", "map", kind, kk, 'm', obj(k[0], g0), "null", obj(k[1], g1))
+				seq(op, "d", "map", kind, kk, 'n', obj(k[0], g0), obj(k[1], bad), obj(k[1], g1))
+				seq(op, "s", "map", kind, kk, 'r', obj(k[0], g0), "1", "[]", obj(k[1], g1))
+				seq(op, "d", "map", kind, kk, 'n', obj(k[0], g0), obj("zz", g1), obj(k[1], g1))
+				seq(op, "d", "map", kind, kk, 'n', obj(k[0], g0), obj(k[1], g1)+"x", obj(k[0], g2))
+			}
+			for _, o := range bothOpts {
+				seq(op, o, "rep", kind, "", 'n', "["+g0+","+g1+"]", "["+g2+"]", "[]")
+				seq(op, o, "rep", kind, "", 'c', "["+g0+","+g1+","+g2+"]", "[]", "["+g1+"]", "null", "["+g0+"]")
+				seq(op, o, "rep", kind, "", 's', "["+g0+"]", "["+bad+"]", "["+g1+"]", "{}", "["+g2+"]")
+				seq(op, o, "sing", kind, "", 'n', g0, g1, g2)
+				seq(op, o, "sing", kind, "", 'm', g0, bad, g1, "null", g2)
+				seq(op, o, "opt", kind, "", 'n', g0, "null", g1)
+				seq(op, o, "oneof", kind, "", 's', g0, "[]", g1, "{}", g2)
+			}
+		}
+		if kind == "enum" {
+			for _, op := range []string{"seqd", "seqt"} {
+				for _, o := range bothOpts {
+					seq(op, o, "map", kind, "string", 'n', `{"a":"NOPE"}`, `{"b":"E_ONE"}`, `{"a":"E_TWO","c":"NOPE"}`, `{}`)
+					seq(op, o, "rep", kind, "", 'n', `["NOPE","E_ONE"]`, `["E_TWO"]`, `["NOPE"]`, `[]`)
+					seq(op, o, "sing", kind, "", 'n', `"E_ONE"`, `"NOPE"`, `"E_TWO"`)
+					seq(op, o, "oneof", kind, "", 'n', `"E_ONE"`, `"NOPE"`, `2`)
+				}
+			}
+		}
+		// stream encoder: sequences of values, then decoded again by one stream decoder
+		vals := boundaryValues(kind)
+		v0, v1, v2 := vals[0], vals[1%len(vals)], vals[len(vals)-1]
+		for _, op := range []string{"sencd", "senct"} {
+			for _, o := range bothOpts {
+				line(op, o, "sing", kind, "", "S"+v0+";S"+v1+";S"+v2)
+				line(op, o, "oneof", kind, "", "S"+v2+";S"+v0)
+				line(op, o, "rep", kind, "", "L"+v0+","+v1+";L;L"+v2+";L"+strings.Join(vals, ","))
+			}
+			for _, kk := range keyKinds {
+				ks := boundaryValues(kk)
+				ka, kb := ks[0], ks[1%len(ks)]
+				line(op, "d", "map", kind, kk, "M"+ka+"="+v0+";M"+kb+"="+v1+";M;M"+ka+"="+v2)
+				line(op, "s", "map", kind, kk, "M"+ka+"="+v0+","+kb+"="+v1+";M"+kb+"="+v2)
+			}
+		}
+	}
+
 	// 5. seeded random
 	n := 12000
 	if tier == "thorough" {
@@ -305,7 +422,49 @@ func (Area) Gen(r *rand.Rand, tier string, emit func(string)) {
 			default:
 				line("enc", o, card, kind, "", "S"+randValue(r, kind))
 			}
-		case 8: // random stream
+		case 8: // random sequence of bodies on one stream decoder
+			if r.Intn(3) > 0 {
+				card := common.Pick(r, []string{"sing", "opt", "oneof", "rep", "map", "map", "map"})
+				kk := ""
+				if card == "map" {
+					kk = common.Pick(r, keyKinds)
+				}
+				n := 2 + r.Intn(4)
+				bodies := make([]string, n)
+				for j := range bodies {
+					switch card {
+					case "rep":
+						m := r.Intn(4)
+						parts := make([]string, m)
+						for q := range parts {
+							parts[q] = randText(r, kind)
+						}
+						bodies[j] = "[" + strings.Join(parts, ",") + "]"
+					case "map":
+						m := r.Intn(4)
+						parts := make([]string, m)
+						for q := range parts {
+							key := randKey(r, kk)
+							if r.Intn(2) == 0 {
+								key = common.Pick(r, []string{"true", "false", "1", "2", "3", "a", "b", "-1", "0"})
+							}
+							v := randText(r, kind)
+							if r.Intn(2) == 0 {
+								v = common.Pick(r, goodTextsFor(kind))
+							}
+							parts[q] = quoted(key) + ":" + v
+						}
+						bodies[j] = "{" + strings.Join(parts, ",") + "}"
+					default:
+						bodies[j] = randText(r, kind)
+					}
+					if r.Intn(12) == 0 {
+						bodies[j] = common.Pick(r, otherTexts)
+					}
+				}
+				seq(common.Pick(r, []string{"seqd", "seqt"}), o, card, kind, kk, common.Pick(r, []byte("nsmr")), bodies...)
+				continue
+			}
 			k := 1 + r.Intn(4)
 			var sb strings.Builder
 			for j := 0; j < k; j++ {
